@@ -25,8 +25,22 @@ INT_CONTEXTS = ["def r := [{E}, {E}]", "def r := ({E}, {E})", "def r := {{{E}, 1
 
 
 # inputs of repaired defects (known_findings.json `fixed:`): a regression is reported again
-REPAIRED = ["print(007)\nprint(02.5)\nprint(02E03)\nprint(00)\n", "print(\"he\n wold\")\n", "def a := 2\nprint(\"x\n{a}y\")\n", "def b := True\ndef xs := [1, 2]\ndef r := {y => y + 1 | y in xs, if b then y > 1 else y >= 1}\n",
+REPAIRED = ["def f(a: Int, a: Int) -> Int => a\n", "class J\n    def m(fin self, self, p: Str) -> Int => 1\n", "class K(def c: Int, def c: Int)\n", "print(007)\nprint(02.5)\nprint(02E03)\nprint(00)\n", "print(\"he\n wold\")\n", "def a := 2\nprint(\"x\n{a}y\")\n", "def b := True\ndef xs := [1, 2]\ndef r := {y => y + 1 | y in xs, if b then y > 1 else y >= 1}\n",
             "def b := True\ndef d := {1 => if b then 1 else 2}\n", "def b := True\ndef xs := [1, 2]\ndef r := {(if b then 1 else 2) => (if b then 5 else 6) | y in xs}\n"]
+
+
+def string_grid():
+    """string literals with every mix of characters that matter to a Python delimiter (apostrophe, escaped double quote,
+    backslash escapes, doubled braces, non-ASCII), plain and interpolated, in a few positions"""
+    parts = ["don't", "say \\\"hi\\\"", "a\\\\b", "tab\\there", "it's \\\"q\\\"", "é ü", "100%", "#no comment", "'", "''", "'\\\"'", "x = 'y'"]
+    out = []
+    for p_ in parts:
+        for interp in ("", " {a}", "{a} ", " {a + 1} and {b}"):
+            lit = '"' + p_ + interp + '"'
+            out.append("def a := 3\ndef b := True\nprint(%s)\n" % lit)
+            out.append("def a := 3\ndef b := True\ndef s := %s\nprint(s)\n" % lit)
+            out.append("def a := 3\ndef b := True\ndef f(z: Str) -> Str => z\nprint(f(%s))\n" % lit)
+    return out
 
 
 def signature_grid():
@@ -87,7 +101,7 @@ def run(chk):
     grid = context_grid(rng, thorough) + signature_grid()
     texts += grid
     texts += [f["input"] for f in chk.findings if f.get("input")]
-    texts += REPAIRED
+    texts += REPAIRED + string_grid()
     res = sweep.transpile(chk, texts)
     n_acc, distinct = 0, set()
     for i, (t, r) in enumerate(zip(texts, res)):
